@@ -4,6 +4,7 @@ import (
 	"bytes"
 	"fmt"
 	"reflect"
+	"unsafe"
 
 	"verif/gen"
 	"verif/harness"
@@ -56,7 +57,7 @@ func init() {
 	})
 	register(&Check{
 		ID:   "C16",
-		Rule: "same corpus as C01; deep canonical snapshot of the value before/after EncodedSize and EncodeObject (pointer and by-value argument), canaries around buf[:n] with spare capacity, second encoding compared up to map order, decode input in a read-only guard-page mapping; distinct = distinct type-shape signature; non-trivial = message has at least one field",
+		Rule: "same corpus as C01; deep canonical snapshot of the value before/after EncodedSize and EncodeObject (pointer and by-value argument), canaries around buf[:n] with spare capacity, second encoding compared up to map order, a further size/encode pass with the value's scalar arrays, binaries and strings moved into write-protected memory (any store faults), decode input in a read-only guard-page mapping; distinct = distinct type-shape signature; non-trivial = message has at least one field",
 		Plan: encPlan(2000, 200000),
 		Run:  runC16,
 	})
@@ -394,6 +395,40 @@ func runC16(c *harness.Ctx, idx int) {
 	if !sameUpToMapOrder(first, b2[:e2.n]) {
 		c.Violation("repeatable", "C16/not-repeatable/"+sig, "second encoding differs beyond map order: %s vs %s", hexClip(first), hexClip(b2[:e2.n]))
 	}
+	// encoding must not write to the value even temporarily: the scalar arrays, binaries and
+	// strings reachable from it (outside maps) move into a write-protected mapping; a store
+	// into them faults in this step, whatever the encoder would have restored afterwards
+	{
+		total := 0
+		relocateScalars(cc.V.Elem(), func(n, align int) unsafe.Pointer {
+			total = (total+align-1)&^(align-1) + n
+			return nil
+		})
+		if total > 0 && total <= 16<<20 {
+			vreg := mon.NewRegion(total + 64)
+			defer vreg.Free()
+			base := vreg.Left(total + 64)
+			off := 0
+			relocateScalars(cc.V.Elem(), func(n, align int) unsafe.Pointer {
+				off = (off + align - 1) &^ (align - 1)
+				p := unsafe.Pointer(&base[off])
+				off += n
+				return p
+			})
+			vreg.ReadOnly()
+			c.Step("size and encode a value whose scalar arrays and strings are write-protected (%d bytes) type=%s", total, s.Describe())
+			c.Count("protected_value_bytes", int64(total))
+			fSize(cc.V.Interface())
+			fSize(cc.V.Elem().Interface())
+			bp := make([]byte, len(want)+extra)
+			if ep := fEncode(bp, cc.V.Interface()); ep.panicked() || ep.err != nil || !sameUpToMapOrder(first, bp[:ep.n]) {
+				c.Violation("repeatable", "C16/protected-value-differs/"+sig, "encoding the value from write-protected memory: err=%v panic=%v, bytes equal=%v", ep.err, ep.pv, sameUpToMapOrder(first, bp[:ep.n]))
+			}
+			if ep := fEncode(bp, cc.V.Elem().Interface()); ep.panicked() || ep.err != nil || !sameUpToMapOrder(first, bp[:ep.n]) {
+				c.Violation("repeatable", "C16/protected-value-differs/"+sig, "encoding the value (by value) from write-protected memory: err=%v panic=%v", ep.err, ep.pv)
+			}
+		}
+	}
 	// decoding must not modify its input: read-only mapping, right-aligned
 	in, reg := mon.GuardedCopy(first, true)
 	c.Step("decode from read-only input %s type=%s", hexClip(first), s.Describe())
@@ -444,6 +479,57 @@ func runC16(c *harness.Ctx, idx int) {
 	}
 	_ = gen.IDClasses
 	c.Sample(map[string]string{"type": s.Describe(), "bytes": hexClip(first), "spare": fmt.Sprint(extra)})
+}
+
+// relocateScalars moves the backing arrays of scalar slices (lists of bool/i8/i16/i32/i64/
+// double/enum, binaries, holders) and the bytes of non-empty strings reachable from v -
+// through pointers, by-value structs and slices, not through maps - into memory handed out
+// by alloc. With an alloc that returns nil it only measures.
+func relocateScalars(v reflect.Value, alloc func(n, align int) unsafe.Pointer) {
+	type sliceHdr struct {
+		Data     unsafe.Pointer
+		Len, Cap int
+	}
+	type stringHdr struct {
+		Data unsafe.Pointer
+		Len  int
+	}
+	switch v.Kind() {
+	case reflect.Ptr:
+		if !v.IsNil() {
+			relocateScalars(v.Elem(), alloc)
+		}
+	case reflect.Struct:
+		for i := 0; i < v.NumField(); i++ {
+			relocateScalars(v.Field(i), alloc)
+		}
+	case reflect.String:
+		if n := v.Len(); n > 0 && v.CanAddr() {
+			if p := alloc(n, 1); p != nil {
+				h := (*stringHdr)(unsafe.Pointer(v.UnsafeAddr()))
+				copy(unsafe.Slice((*byte)(p), n), unsafe.Slice((*byte)(h.Data), n))
+				h.Data = p
+			}
+		}
+	case reflect.Slice:
+		if v.IsNil() || v.Len() == 0 || !v.CanAddr() {
+			return
+		}
+		switch v.Type().Elem().Kind() {
+		case reflect.Bool, reflect.Int8, reflect.Int16, reflect.Int32, reflect.Int64, reflect.Int, reflect.Float64, reflect.Uint8:
+			es := int(v.Type().Elem().Size())
+			n := v.Len() * es
+			if p := alloc(n, es); p != nil {
+				h := (*sliceHdr)(unsafe.Pointer(v.UnsafeAddr()))
+				copy(unsafe.Slice((*byte)(p), n), unsafe.Slice((*byte)(h.Data), n))
+				h.Data, h.Cap = p, h.Len
+			}
+		case reflect.Ptr, reflect.Struct, reflect.Slice, reflect.String:
+			for i := 0; i < v.Len(); i++ {
+				relocateScalars(v.Index(i), alloc)
+			}
+		}
+	}
 }
 
 // collectBools gathers the offsets of every bool value byte of a parsed message.
